@@ -1,18 +1,6 @@
-mod alloc;
-mod bytes;
-mod choose;
-mod diff;
-mod engine;
-mod gen;
-mod inproc;
-mod model;
-mod props;
-mod ptext;
-mod push;
-mod ws;
-mod wsgen;
 
-use engine::*;
+use rqv::engine::*;
+use rqv::{alloc, bytes, engine, props, ws};
 use std::path::{Path, PathBuf};
 use std::sync::atomic::AtomicU64;
 
@@ -152,6 +140,31 @@ fn main() {
             let code = dispatch!(prop.as_str(), do_replay, &env, &rf);
             ws::rm_rf(&env.scratch);
             std::process::exit(code);
+        }
+        "artifact" => {
+            // artifact <prop> <target> <file>: turn a libFuzzer artifact into a replay file
+            let (prop, target, file) = (args[2].as_str(), args[3].as_str(), args[4].as_str());
+            let data = std::fs::read(file).expect("read artifact");
+            let case: serde_json::Value = match target {
+                "parse" => serde_json::json!({"mode": "Parse", "data": rqv::bytes::esc(&data), "origin": "libfuzzer", "threads": 1, "verbosity": ""}),
+                "roundtrip" => serde_json::json!({"data": rqv::bytes::esc(&data), "origin": "libfuzzer"}),
+                _ => {
+                    let choices: Vec<u32> = data.chunks(4).map(|c| { let mut b = [0u8; 4]; b[..c.len()].copy_from_slice(c); u32::from_le_bytes(b) }).collect();
+                    let mut ch = rqv::choose::Chooser::new(&choices);
+                    let c = props::place::gen_place_case(&mut ch, &props::place::GenOpts { max_file: 16, max_hunks: 4, max_fuzz: 3 });
+                    if prop == "C04" {
+                        // C04's case type is a history: one step with this patch
+                        serde_json::json!({"start": c.file, "start_mode": 33188, "patches": [rqv::bytes::esc(&c.patch_text())], "steps": [{"patch": 0, "reverse": c.reverse, "fuzz": c.fuzz}], "kinds": ["modify"]})
+                    } else {
+                        serde_json::to_value(&c).unwrap()
+                    }
+                }
+            };
+            let rf = ReplayFile { property: prop.to_string(), message: format!("found by the libFuzzer target '{}'", target), case, note: format!("artifact {}", file) };
+            let body = serde_json::to_vec_pretty(&rf).unwrap();
+            let path = format!("/verif/replays/{}-fuzz-{:016x}.json", prop, bytes::fnv(&body));
+            std::fs::write(&path, body).expect("write replay");
+            println!("{}", path);
         }
         "run" => {
             let prop = args[2].clone();
